@@ -28,7 +28,8 @@ ASSUMPTIONS = {
     ],
     "C05": [
         "caller obligation not discharged: no empty contig in the reference (ends_ok); write_vcf zips the iterator with the alignment columns, so next() is not called after None",
-        "unverified glue: the genotype loop of write_vcf (allele numbering, '-' -> '.', 'record exactly when some sample differs', REF from the stored reference byte) - noodles builders, String, rayon",
+        "the per-character genotype decision of write_vcf (\"0\" iff equal to the reference byte, '.' for '-', allele index otherwise, variant flag, ALT list) is under a complete Kani contract on the lifted statement; still unverified glue: the loops around it, `if variant` -> record, REF/contig names/sample order handed to the noodles builders, rayon pseudoalignment",
+        "bounded (never counted as proved): IdxCheck::new + iter on the real code for 3 contigs of length <= 2 (back-up for re-implementations Verus cannot parse)",
     ],
     "C06": [
         "unverified glue: MergeSkaArray::filter's loop over rows, the `*count >= min_count` test, push_row, mask_ambig mapv_inplace, the returned `removed`; write_fasta's transpose; clap wiring",
@@ -37,14 +38,15 @@ ASSUMPTIONS = {
         "bounded (thorough tier only, never counted as proved): update_counts on a 2x2 table",
     ],
     "C12": KMER_COMMON + [
-        "not decided: KmerFilter::filter's hashbrown count table (the `== min_count` threshold) and the order in which add_file_kmers consults middle_base_qual() and filter() (unverified glue); the < 0.1% collision statement is probabilistic",
+        "not decided: KmerFilter::filter's hashbrown count table (the `== min_count` threshold); the < 0.1% collision statement is probabilistic",
+        "the read-filter condition of add_file_kmers (quality rule consulted before, and as a guard of, the counting filter) is checked by Kani on the lifted condition with KmerFilter::filter stubbed, for one read of length k = 5; the needletail loop and the dictionary insertion around it are unverified glue",
         "assumed contract: KmerFilter::cheap_mix (wrapping_mul) is an arbitrary but fixed function of the key (external_body, uninterpreted mix_spec)",
         "R13: `self.buffer[i].borrow_mut()` rewritten to `&mut self.buffer[i]` (blanket identity impl)",
         "assumed contracts u64::rotate_left/rotate_right == shift formulas (assume_specification) - discharged for every value by the Kani harness rotate_spec_all_values",
     ],
     "C14": [
         "BOUNDED: variant_dist is checked for columns of length 3 only",
-        "not decided: MergeSkaArray::distance (rayon, collect_into_vec order), generic_modes::distance's pre-filter bookkeeping (rows removed by --min-freq are added to every pair's match count), MergeSkaArray::new's counts",
+        "not decided: MergeSkaArray::distance (rayon, collect_into_vec order), generic_modes::distance's pre-filter bookkeeping (rows removed by --min-freq are added to every pair's match count); of MergeSkaArray::new only the closure deciding which cells count as present is proved (lifted fragment), its hashbrown iteration and ndarray push_row are glue",
         "floating point compared exactly under CBMC's IEEE-754 model",
     ],
     "C15": [
